@@ -119,23 +119,39 @@ def make_library(seed, diag_cls, par, level=0.0):
   raise tlc.MachineryError('could not build a series library with distinguishable versions')
 
 
-def replay_behaviour(diag_cls, par, lib, hist):
-  """Steps one spec behaviour through a real object. Returns None or (clause, detail, step)."""
+def replay_behaviour(diag_cls, par, lib, hist, delivery='fresh'):
+  """Steps one spec behaviour through a real object. Returns None or (clause, detail, step).
+
+  delivery 'buffer': the caller keeps ONE float array per series role, overwrites it in place with the next version
+  and assigns the same array object again (real-valued versions only; the integer-typed one is handed over as it is)."""
   ys, xs, fresh = lib
   yv = int(hist[0]['arg'])
   xv = 0
-  d = diag_cls(ys[yv - 1], par)
+  bufx = np.zeros(len(ys[0]), dtype=float)
+  bufy = np.zeros(len(ys[0]), dtype=float)
+
+  def deliver(buf, v):
+    a = np.asarray(v)
+    if delivery != 'buffer' or a.dtype.kind != 'f' or len(a) > len(buf):
+      return v
+    if len(a) == len(buf):
+      buf[:] = a
+      return buf
+    part = buf[:len(a)]      # a shorter series: a view of the same memory
+    part[:] = a
+    return part
+  d = diag_cls(deliver(bufy, ys[yv - 1]), par)
   for step, ev in enumerate(hist[1:], start=1):
     a = ev['a']
     arg = ev['arg'].strip('"')
     try:
       if a == 'setx':
         xv = int(arg)
-        d.x = None if xv == 0 else xs[xv - 1][:len(ys[yv - 1])]
+        d.x = None if xv == 0 else deliver(bufx, xs[xv - 1][:len(ys[yv - 1])])
       elif a == 'sety':
         yv = int(arg)
         xv = 0
-        d.y = ys[yv - 1]
+        d.y = deliver(bufy, ys[yv - 1])
       else:
         got = flat(read(d, arg))
         served = (ev['y'], ev['x'])
@@ -205,8 +221,10 @@ def run(res):
       continue
     seen.add(key)
     todo.append(hist)
-  results = par_mod.pmap(lambda ih: replay_behaviour(diag_cls, par, lib_high if ih[0] % 3 == 2 else lib, ih[1]),
+  results = par_mod.pmap(lambda ih: replay_behaviour(diag_cls, par, lib_high if ih[0] % 3 == 2 else lib, ih[1],
+                                                     'buffer' if ih[0] % 4 == 1 else 'fresh'),
                          list(enumerate(todo)))
+  res.extra['behaviours_delivered_through_one_reused_buffer'] = len([1 for i in range(len(todo)) if i % 4 == 1])
   res.extra['behaviours_on_high_level_series'] = len([1 for i in range(len(todo)) if i % 3 == 2])
   for hist, bad in zip(todo, results):
     res.case_seen(tuple((e['a'], e['arg']) for e in hist))
@@ -220,7 +238,8 @@ def run(res):
       stale_opportunities += 1
     if bad and len(res.violations) <= 25:
       res.violate(bad[0], {'history': [(e['a'], e['arg'].strip('"')) for e in hist[:bad[2] + 1]], 'lib_seed': res.seed % 1000,
-                           'level': 5.0e6 if todo.index(hist) % 3 == 2 else 0.0}, bad[1])
+                           'level': 5.0e6 if todo.index(hist) % 3 == 2 else 0.0,
+                           'delivery': 'buffer' if todo.index(hist) % 4 == 1 else 'fresh'}, bad[1])
     if res.traces % 2500 == 3:
       res.sample([(e['a'], e['arg'].strip('"'), (e['y'], e['x'])) for e in hist])
   res.coverage_actions.update({'replayed.' + k: [v, v] for k, v in acts.items()})
@@ -254,6 +273,6 @@ def replay(res, blob):
       e['y'], e['x'] = (yv, xv) if xv else (-1, -1)
   res.case_seen('replay')
   res.traces += 1
-  bad = replay_behaviour(tbrmmdiagnostics.TBRMMDiagnostics, par, lib, hist)
+  bad = replay_behaviour(tbrmmdiagnostics.TBRMMDiagnostics, par, lib, hist, c.get('delivery', 'fresh'))
   if bad:
     res.violate(bad[0], c, bad[1])
